@@ -6,6 +6,7 @@ import (
 	"errors"
 	"fmt"
 	"io"
+	"math/bits"
 	"math/rand"
 	"os"
 	"regexp"
@@ -26,11 +27,25 @@ func init() { RegisterSub("C09", "merge", RunC09) }
 
 // ---------------------------------------------------------------- case description
 
-type c09Col struct{ Opt, Desc, NF bool } // nullable, descending, nulls first
+// nullable, descending, nulls first; Wrap: 0 = the key is the top-level leaf k<j>, 1 = it is the leaf
+// k<j>.v of an OPTIONAL group k<j> (one more definition level: a null key has the group absent, def 0,
+// or the group present and the leaf null, def max-1), 2 = leaf k<j>.v of a required group
+type c09Col struct {
+	Opt, Desc, NF bool
+	Wrap          int
+}
+
+func (col c09Col) path() []string {
+	if col.Wrap != 0 {
+		return []string{"", "v"}
+	}
+	return []string{""}
+}
 
 type c09Row struct {
 	K        [3]int64
 	Null     [3]bool
+	GNull    [3]bool // Wrap = 1: the enclosing group is absent (implies Null)
 	Inp, Seq int32
 }
 
@@ -46,13 +61,19 @@ type c09Case struct {
 	Pattern string
 	Lists   bool  // repeated payload column sorting before the keys
 	Seeks   []int // path rows: forward seeks (distance in rows) interleaved with the reads
-	Nest    string // "" = one flat merge; otherwise the tree of merges, e.g. [[0,1],2,[3,[4,5]]]: inner
+	Evolve  uint  // != 0: the merge's schema has one more optional column z_new; bit i set = input i was written
+	// without it (an older schema) and is converted by the merge; an inner merge of a nest whose leaves all
+	// lack the column is made in the older schema, so that its result is converted by the enclosing merge
+	DedupeIn bool // nests: the inner merges drop duplicated rows, the outermost does not (its inputs are
+	// deduplicating views: one row per key of the leaves below each inner merge)
+	Nest string // "" = one flat merge; otherwise the tree of merges, e.g. [[0,1],2,[3,[4,5]]]: inner
 	// lists are merged first (same options / comparator) and their result is an input of the enclosing merge
 
-	seekOut []c09Pos
-	seekEOF int
-	planReq string // request for the Lean mirror of the planner (set by c09Run)
-	factKey, factWhat string // a violated hypothesis of the planner theorems (set by c09Run)
+	seekOut           []c09Pos
+	seekEOF           int
+	planReq           string      // request for the Lean mirror of the planner (set by c09Run)
+	factKey, factWhat string      // a violated hypothesis of the planner theorems (set by c09Run)
+	shapes            [][2]string // row-group trees met by c09Run: prefix text, real answers of the three predicates
 }
 
 func (c *c09Case) sortCols() int {
@@ -68,7 +89,9 @@ func (r c09Row) keyText(ncols int) string {
 		if j > 0 {
 			sb.WriteByte(';')
 		}
-		if r.Null[j] {
+		if r.GNull[j] {
+			sb.WriteByte('N')
+		} else if r.Null[j] {
 			sb.WriteByte('n')
 		} else {
 			sb.WriteString(strconv.FormatInt(r.K[j], 10))
@@ -80,9 +103,23 @@ func (r c09Row) keyText(ncols int) string {
 func (c *c09Case) canon() string {
 	var sb strings.Builder
 	for _, col := range c.Cols {
+		if col.Wrap != 0 {
+			fmt.Fprintf(&sb, "col(opt=%v,desc=%v,nf=%v,wrap=%d) ", col.Opt, col.Desc, col.NF, col.Wrap)
+			continue
+		}
 		fmt.Fprintf(&sb, "col(opt=%v,desc=%v,nf=%v) ", col.Opt, col.Desc, col.NF)
 	}
 	fmt.Fprintf(&sb, "mcols=%d storage=%s pagebuf=%d batches=%v dedupe=%v path=%s lists=%v seeks=%v ", c.MCols, c.Storage, c.PageBuf, c.Batches, c.Dedupe, c.Path, c.Lists, c.Seeks)
+	if c.Evolve != 0 {
+		sb.WriteString("evolve=")
+		for i := range c.Inputs {
+			sb.WriteByte('0' + byte(c.Evolve>>i&1))
+		}
+		sb.WriteByte(' ')
+	}
+	if c.DedupeIn {
+		sb.WriteString("inner-dedupe ")
+	}
 	if c.Nest != "" {
 		fmt.Fprintf(&sb, "nest=%s ", c.Nest)
 	}
@@ -145,8 +182,14 @@ func c09Schema(cols []c09Col) *parquet.Schema { return c09SchemaL(cols, false) }
 
 // lists = true adds a repeated payload column "a_list" that sorts before the key columns by name
 // (the merged schema orders fields by name): 0..4 values per row, derived from the hidden payload
-func c09SchemaL(cols []c09Col, lists bool) *parquet.Schema {
+func c09SchemaL(cols []c09Col, lists bool) *parquet.Schema { return c09SchemaE(cols, lists, false) }
+
+// extra = true adds the optional column z_new (last by name), see c09Case.Evolve
+func c09SchemaE(cols []c09Col, lists, extra bool) *parquet.Schema {
 	g := parquet.Group{"x_inp": parquet.Int(32), "y_seq": parquet.Int(32)}
+	if extra {
+		g["z_new"] = parquet.Optional(parquet.Int(64))
+	}
 	if lists {
 		g["a_list"] = parquet.Repeated(parquet.Int(32))
 	}
@@ -154,6 +197,12 @@ func c09SchemaL(cols []c09Col, lists bool) *parquet.Schema {
 		var n parquet.Node = parquet.Int(64)
 		if col.Opt {
 			n = parquet.Optional(n)
+		}
+		switch col.Wrap {
+		case 1:
+			n = parquet.Optional(parquet.Group{"v": n})
+		case 2:
+			n = parquet.Group{"v": n}
 		}
 		g["k"+strconv.Itoa(j)] = n
 	}
@@ -181,10 +230,12 @@ func c09Sorting(cols []c09Col, n int) []parquet.SortingColumn {
 	var out []parquet.SortingColumn
 	for j := 0; j < n; j++ {
 		var sc parquet.SortingColumn
+		path := cols[j].path()
+		path[0] = "k" + strconv.Itoa(j)
 		if cols[j].Desc {
-			sc = parquet.Descending("k" + strconv.Itoa(j))
+			sc = parquet.Descending(path...)
 		} else {
-			sc = parquet.Ascending("k" + strconv.Itoa(j))
+			sc = parquet.Ascending(path...)
 		}
 		if cols[j].NF {
 			sc = parquet.NullsFirst(sc)
@@ -197,7 +248,14 @@ func c09Sorting(cols []c09Col, n int) []parquet.SortingColumn {
 func c09ToRow(cols []c09Col, r c09Row) parquet.Row { return c09ToRowL(cols, r, false) }
 
 func c09ToRowL(cols []c09Col, r c09Row, lists bool) parquet.Row {
-	row := make(parquet.Row, 0, len(cols)+7)
+	return c09ToRowE(cols, r, lists, false)
+}
+
+// the value of the column z_new of a row written with it
+func c09Extra(inp, seq int32) int64 { return int64(inp)*100000 + int64(seq) - 7 }
+
+func c09ToRowE(cols []c09Col, r c09Row, lists, extra bool) parquet.Row {
+	row := make(parquet.Row, 0, len(cols)+8)
 	off := 0
 	if lists {
 		off = 1
@@ -214,32 +272,61 @@ func c09ToRowL(cols []c09Col, r c09Row, lists bool) parquet.Row {
 		}
 	}
 	for j, col := range cols {
+		maxDef := 0
+		if col.Opt {
+			maxDef++
+		}
+		if col.Wrap == 1 {
+			maxDef++
+		}
 		switch {
-		case !col.Opt:
-			row = append(row, parquet.Int64Value(r.K[j]).Level(0, 0, j+off))
-		case r.Null[j]:
+		case r.GNull[j] && col.Wrap == 1:
 			row = append(row, parquet.Value{}.Level(0, 0, j+off))
+		case r.Null[j] && col.Opt:
+			row = append(row, parquet.Value{}.Level(0, maxDef-1, j+off))
 		default:
-			row = append(row, parquet.Int64Value(r.K[j]).Level(0, 1, j+off))
+			row = append(row, parquet.Int64Value(r.K[j]).Level(0, maxDef, j+off))
 		}
 	}
 	row = append(row, parquet.Int32Value(r.Inp).Level(0, 0, len(cols)+off))
 	row = append(row, parquet.Int32Value(r.Seq).Level(0, 0, len(cols)+1+off))
+	if extra {
+		row = append(row, parquet.Int64Value(c09Extra(r.Inp, r.Seq)).Level(0, 1, len(cols)+2+off))
+	}
 	return row
 }
 
 func c09FromRow(ncols int, row parquet.Row) (c09Row, error) { return c09FromRowL(ncols, row, false) }
 
 func c09FromRowL(ncols int, row parquet.Row, lists bool) (c09Row, error) {
+	return c09FromRowW(ncols, 0, 0, row, lists)
+}
+
+// bit j of the result: key column j sits in an optional group
+func c09WrapMask(cols []c09Col) (m uint) {
+	for j, col := range cols {
+		if col.Wrap == 1 {
+			m |= 1 << j
+		}
+	}
+	return m
+}
+
+// evolve != 0: the rows have the column z_new; it is null in the rows of the inputs named by evolve
+func c09FromRowW(ncols int, wrapped, evolve uint, row parquet.Row, lists bool) (c09Row, error) {
 	var r c09Row
-	off := 0
+	off, extra := 0, 0
+	if evolve != 0 {
+		extra = 1
+	}
 	var list []int32
 	if lists {
 		off = 1
-	} else if len(row) != ncols+2 {
-		return r, fmt.Errorf("row has %d values, want %d", len(row), ncols+2)
+	} else if len(row) != ncols+2+extra {
+		return r, fmt.Errorf("row has %d values, want %d", len(row), ncols+2+extra)
 	}
 	seen := 0
+	var z parquet.Value
 	for _, v := range row {
 		c := v.Column() - off
 		switch {
@@ -248,11 +335,14 @@ func c09FromRowL(ncols int, row parquet.Row, lists bool) (c09Row, error) {
 				list = append(list, v.Int32())
 			}
 			continue
-		case c < 0 || c >= ncols+2:
+		case c < 0 || c >= ncols+2+extra:
 			return r, fmt.Errorf("value with column index %d", v.Column())
+		case c == ncols+2:
+			z = v
 		case c < ncols:
 			if v.IsNull() {
 				r.Null[c] = true
+				r.GNull[c] = wrapped&(1<<c) != 0 && v.DefinitionLevel() == 0
 			} else {
 				r.K[c] = v.Int64()
 			}
@@ -263,8 +353,13 @@ func c09FromRowL(ncols int, row parquet.Row, lists bool) (c09Row, error) {
 		}
 		seen++
 	}
-	if seen != ncols+2 {
-		return r, fmt.Errorf("row has %d non-list values, want %d", seen, ncols+2)
+	if seen != ncols+2+extra {
+		return r, fmt.Errorf("row has %d non-list values, want %d", seen, ncols+2+extra)
+	}
+	if extra == 1 && r.Inp >= 0 && r.Inp < 32 {
+		if lacks := evolve>>uint(r.Inp)&1 == 1; lacks != z.IsNull() || (!lacks && z.Int64() != c09Extra(r.Inp, r.Seq)) {
+			return r, fmt.Errorf("column z_new of row (%d,%d) altered: %v (written without the column: %v)", r.Inp, r.Seq, z, lacks)
+		}
 	}
 	if lists && fmt.Sprint(list) != fmt.Sprint(c09List(r.Inp, r.Seq)) {
 		return r, fmt.Errorf("list payload of row (%d,%d) altered: %v, written %v", r.Inp, r.Seq, list, c09List(r.Inp, r.Seq))
@@ -306,10 +401,14 @@ func (c *c09ChunkReader) ReadRows(dst []parquet.Row) (int, error) {
 
 // build one input as a row group
 func c09RowGroup(c *c09Case, schema *parquet.Schema, in []c09Row, asFile bool) (parquet.RowGroup, error) {
+	return c09RowGroupE(c, schema, in, asFile, false)
+}
+
+func c09RowGroupE(c *c09Case, schema *parquet.Schema, in []c09Row, asFile, extra bool) (parquet.RowGroup, error) {
 	sorting := c09Sorting(c.Cols, len(c.Cols))
 	rows := make([]parquet.Row, len(in))
 	for i, r := range in {
-		rows[i] = c09ToRowL(c.Cols, r, c.Lists)
+		rows[i] = c09ToRowE(c.Cols, r, c.Lists, extra)
 	}
 	if !asFile || len(in) == 0 {
 		b := parquet.NewBuffer(schema, parquet.SortingRowGroupConfig(parquet.SortingColumns(sorting...)))
@@ -355,7 +454,7 @@ func c09Drain(c *c09Case, rr parquet.RowReader, limit int) ([]c09Row, [][2]int, 
 			return out, calls, fmt.Errorf("ReadRows returned n=%d for a buffer of %d", n, b)
 		}
 		for _, row := range buf[:n] {
-			r, derr := c09FromRowL(len(c.Cols), row, c.Lists)
+			r, derr := c09FromRowW(len(c.Cols), c09WrapMask(c.Cols), c.Evolve, row, c.Lists)
 			if derr != nil {
 				return out, calls, derr
 			}
@@ -414,7 +513,7 @@ func c09DrainSeek(c *c09Case, rows parquet.Rows, limit int) (out []c09Pos, eofAt
 				return
 			}
 			for _, row := range buf[:n] {
-				rw, derr := c09FromRowL(len(c.Cols), row, c.Lists)
+				rw, derr := c09FromRowW(len(c.Cols), c09WrapMask(c.Cols), c.Evolve, row, c.Lists)
 				if derr != nil {
 					r.err = derr
 					return
@@ -728,12 +827,20 @@ func c09Run(c *c09Case) (out []c09Row, kind string, calls [][2]int, plan string,
 			err = fmt.Errorf("panic: %v", p)
 		}
 	}()
-	schema := c09SchemaL(c.Cols, c.Lists)
+	if c.Evolve != 0 && (c.Path == "readers" || len(c.Inputs) > 32) {
+		return nil, "", nil, "", errors.New("evolve: not on the readers path")
+	}
+	schema := c09SchemaE(c.Cols, c.Lists, c.Evolve != 0)
+	older := c09SchemaL(c.Cols, c.Lists) // the schema of the inputs written without z_new
 	total := 0
 	rgs := make([]parquet.RowGroup, len(c.Inputs))
 	for i, in := range c.Inputs {
 		asFile := c.Storage == "file" || (c.Storage == "mixed" && i%2 == 1)
-		rg, e := c09RowGroup(c, schema, in, asFile)
+		isch, extra := schema, c.Evolve != 0
+		if c.Evolve>>uint(i)&1 == 1 {
+			isch, extra = older, false
+		}
+		rg, e := c09RowGroupE(c, isch, in, asFile, extra)
 		if e != nil {
 			return nil, "", nil, "", fmt.Errorf("building input %d: %w", i, e)
 		}
@@ -741,13 +848,20 @@ func c09Run(c *c09Case) (out []c09Row, kind string, calls [][2]int, plan string,
 		total += len(in)
 	}
 	msort := c09Sorting(c.Cols, c.sortCols())
-	opts := []parquet.RowGroupOption{schema}
-	if c.MCols > 0 || c.Dedupe {
-		so := []parquet.SortingOption{parquet.DropDuplicatedRows(c.Dedupe)}
-		if c.MCols > 0 {
-			so = append(so, parquet.SortingColumns(msort...))
+	optsOf := func(schema *parquet.Schema, dedupe bool) []parquet.RowGroupOption {
+		opts := []parquet.RowGroupOption{schema}
+		if c.MCols > 0 || dedupe {
+			so := []parquet.SortingOption{parquet.DropDuplicatedRows(dedupe)}
+			if c.MCols > 0 {
+				so = append(so, parquet.SortingColumns(msort...))
+			}
+			opts = append(opts, parquet.SortingRowGroupConfig(so...))
 		}
-		opts = append(opts, parquet.SortingRowGroupConfig(so...))
+		return opts
+	}
+	opts := optsOf(schema, c.Dedupe)
+	if c.DedupeIn && (c.Nest == "" || c.MCols == 0) {
+		return nil, "", nil, "", errors.New("inner-dedupe: needs a nest and explicit sorting columns")
 	}
 	var tree *c09Tree
 	if c.Nest != "" {
@@ -784,6 +898,9 @@ func c09Run(c *c09Case) (out []c09Row, kind string, calls [][2]int, plan string,
 			for i, k := range t.kids {
 				kids[i] = build(k)
 			}
+			if c.DedupeIn && t != tree {
+				return parquet.DedupeRowReader(parquet.MergeRowReaders(kids, cmp), cmp)
+			}
 			return parquet.MergeRowReaders(kids, cmp)
 		}
 		if tree == nil {
@@ -818,7 +935,17 @@ func c09Run(c *c09Case) (out []c09Row, kind string, calls [][2]int, plan string,
 				}
 				kids[i], il = rg, il || kil
 			}
-			m, e := parquet.MergeRowGroups(kids, opts...)
+			iopts := optsOf(schema, c.Dedupe || c.DedupeIn)
+			if c.Evolve != 0 {
+				allOlder := true
+				for _, l := range t.leaves(nil) {
+					allOlder = allOlder && c.Evolve>>uint(l)&1 == 1
+				}
+				if allOlder {
+					iopts = optsOf(older, c.Dedupe || c.DedupeIn)
+				}
+			}
+			m, e := parquet.MergeRowGroups(kids, iopts...)
 			if e != nil {
 				return nil, false, fmt.Errorf("inner MergeRowGroups: %w", e)
 			}
@@ -852,6 +979,9 @@ func c09Run(c *c09Case) (out []c09Row, kind string, calls [][2]int, plan string,
 			if interleaved[i] {
 				parts[i] += "~I"
 			}
+			if c.DedupeIn && tree != nil && tree.kids[i].leaf < 0 {
+				parts[i] += "~D" // a deduplicating view: Rows() leaves out rows of the column chunks
+			}
 		}
 		if ok {
 			ts := "."
@@ -865,9 +995,50 @@ func c09Run(c *c09Case) (out []c09Row, kind string, calls [][2]int, plan string,
 	if total <= 6000 && (total+len(c.Batches))%2 == 0 {
 		c.factKey, c.factWhat = c09PlannerFacts(c, schema, msort, tops)
 	}
+	if c.factKey == "" {
+		// the null counts of the page indexes of the leaves (hasNulls of the planner's page statistics):
+		// as many nulls as the input has null keys in that column, whatever their definition level
+		off := 0
+		if c.Lists {
+			off = 1
+		}
+		for i, rg := range rgs {
+			for j := 0; j < c.sortCols() && len(c.Inputs[i]) > 0 && c.factKey == ""; j++ {
+				want := int64(0)
+				for _, r := range c.Inputs[i] {
+					if r.Null[j] {
+						want++
+					}
+				}
+				ci, err := rg.ColumnChunks()[j+off].ColumnIndex()
+				if err != nil || ci == nil {
+					continue
+				}
+				got := int64(0)
+				for p := 0; p < ci.NumPages(); p++ {
+					got += ci.NullCount(p)
+				}
+				if got != want {
+					c.factKey = "column-index-null-count"
+					c.factWhat = fmt.Sprintf("input %d (%T), key column %d: the pages of the column index count %d nulls, the input has %d null keys", i, rg, j, got, want)
+				}
+			}
+		}
+	}
 	merged, e := parquet.MergeRowGroups(tops, opts...)
 	if e != nil {
 		return nil, "", nil, "", fmt.Errorf("MergeRowGroups: %w", e)
+	}
+	c.shapes = c.shapes[:0]
+	for _, rg := range append(append([]parquet.RowGroup{}, tops...), merged) {
+		il, dr, ro := parquet.VerifRowGroupPredicates(rg)
+		b := func(x bool) string {
+			if x {
+				return "1"
+			}
+			return "0"
+		}
+		c.shapes = append(c.shapes, [2]string{parquet.VerifRowGroupShape(rg), "ok " + b(il) + " " + b(dr) + " " + b(ro)})
 	}
 	kind = parquet.VerifMergeKind(merged)
 	var segs []string
@@ -1073,6 +1244,49 @@ func c09Oracle(c *c09Case, out []c09Row) (key, what string) {
 			return "unsorted", fmt.Sprintf("output not sorted: row %d (%s) precedes row %d (%s)", i-1, out[i-1].keyText(n), i, out[i].keyText(n))
 		}
 	}
+	if !c.Dedupe && c.DedupeIn {
+		// the inputs of the outermost merge that are inner merges deliver one row per sort key of the leaves
+		// below them; the outermost merge keeps all the rows of its inputs
+		tree, err := c09ParseTree(c.Nest)
+		if err != nil {
+			return "bad-case", err.Error()
+		}
+		sortKey := func(r c09Row) string {
+			r.GNull = [3]bool{}
+			return r.keyText(n)
+		}
+		for g, kid := range tree.kids {
+			if kid.leaf >= 0 {
+				for j, k := range seen[kid.leaf] {
+					if k == 0 {
+						return "lost-row", fmt.Sprintf("input %d row %d (key %s) is missing from the output (%d rows out)", kid.leaf, j, c.Inputs[kid.leaf][j].keyText(n), len(out))
+					}
+				}
+				continue
+			}
+			below := map[int32]bool{}
+			for _, l := range kid.leaves(nil) {
+				below[int32(l)] = true
+			}
+			count := map[string]int{}
+			for _, r := range out {
+				if below[r.Inp] {
+					count[sortKey(r)]++
+				}
+			}
+			for l := range below {
+				for j, r := range c.Inputs[l] {
+					switch k := count[sortKey(r)]; {
+					case k == 0:
+						return "dedupe-lost-key", fmt.Sprintf("no output row has the sort key %s of input %d row %d (below the deduplicating input %d of the outermost merge)", r.keyText(n), l, j, g)
+					case k > 1:
+						return "deduplicated-rows-reappear", fmt.Sprintf("input %d of the outermost merge is a deduplicating merge (one row per sort key) of the leaves %s, the output has %d rows of these leaves with the sort key %s", g, kid.text(), k, r.keyText(n))
+					}
+				}
+			}
+		}
+		return "", ""
+	}
 	if !c.Dedupe {
 		for i := range seen {
 			for j, k := range seen[i] {
@@ -1089,13 +1303,18 @@ func c09Oracle(c *c09Case, out []c09Row) (key, what string) {
 			return "dedupe-left-duplicate", fmt.Sprintf("rows %d and %d have the same sort key %s", i-1, i, out[i].keyText(n))
 		}
 	}
+	// the sort key of a row: a null is a null, whether its group is absent or present
+	sortKey := func(r c09Row) string {
+		r.GNull = [3]bool{}
+		return r.keyText(n)
+	}
 	have := map[string]bool{}
 	for _, r := range out {
-		have[r.keyText(n)] = true
+		have[sortKey(r)] = true
 	}
 	for i := range c.Inputs {
 		for j, r := range c.Inputs[i] {
-			if !have[r.keyText(n)] {
+			if !have[sortKey(r)] {
 				return "dedupe-lost-key", fmt.Sprintf("no output row has the sort key %s of input %d row %d", r.keyText(n), i, j)
 			}
 		}
@@ -1126,6 +1345,27 @@ func c09Check(ctx *core.Ctx, c *c09Case, p *c09Pending) {
 	ctx.Hist("total-rows", c09Bucket(total))
 	ctx.Hist("nulls", strconv.FormatBool(nulls))
 	ctx.Hist("key-columns", fmt.Sprintf("%d/merge-by-%d", len(c.Cols), c.MCols))
+	{
+		nest, kinds := "top-level", [3]bool{}
+		for j, col := range c.Cols {
+			if col.Wrap != 0 {
+				nest = "in-group"
+			}
+			for _, in := range c.Inputs {
+				for _, r := range in {
+					if r.GNull[j] {
+						kinds[0] = true
+					} else if r.Null[j] && col.Wrap == 1 {
+						kinds[1] = true
+					}
+				}
+			}
+		}
+		if nest != "top-level" {
+			nest += fmt.Sprintf(" group-absent=%v leaf-null-in-present-group=%v", kinds[0], kinds[1])
+		}
+		ctx.Hist("key-nesting", nest)
+	}
 	detail := func() map[string]any {
 		var o []string
 		for _, r := range out {
@@ -1138,6 +1378,17 @@ func c09Check(ctx *core.Ctx, c *c09Case, p *c09Pending) {
 		return map[string]any{"case": cs, "plan": kind, "output": strings.Join(o, " "), "calls": fmt.Sprint(calls[:min(len(calls), 50)])}
 	}
 	sig := fmt.Sprintf(" path=%s", c.Path)
+	if c.DedupeIn {
+		sig = " inner-dedupe" + sig
+	}
+	ctx.Hist("inner-dedupe", strconv.FormatBool(c.DedupeIn))
+	if c.Evolve != 0 {
+		// some inputs are converted to the schema of the merge
+		sig = " converted" + sig
+		ctx.Hist("schema-evolution", fmt.Sprintf("inputs-without-the-new-column=%s", c09Bucket(bits.OnesCount(c.Evolve))))
+	} else {
+		ctx.Hist("schema-evolution", "none")
+	}
 	if c.Nest != "" {
 		// a merged row group (or merged reader) is itself an input of a merge
 		sig = " nested" + sig
@@ -1182,6 +1433,26 @@ func c09Check(ctx *core.Ctx, c *c09Case, p *c09Pending) {
 					"case": canon[:min(len(canon), 3000)], "request": req[:min(len(req), 6000)], "impl": want, "model": ans})
 			}
 		})
+	}
+	// L2: rowGroupInterleavesChunks / rowGroupDropsRows / rowGroupReadsChunksInOrder on the trees of views
+	// this case built (inputs of the outermost merge and its result) against the mirror in MergeShape.lean
+	if p != nil && err == nil {
+		asked := map[string]bool{}
+		for _, sh := range c.shapes {
+			if asked[sh[0]] || len(sh[0]) > 4000 {
+				continue
+			}
+			asked[sh[0]] = true
+			req, want := "merge.shape "+sh[0], sh[1]
+			ctx.Hist("l2-shape", sh[0][:1]+" "+want[3:])
+			p.reqs = append(p.reqs, req)
+			p.pend = append(p.pend, func(ans string) {
+				if ans != want {
+					ctx.Fail("L2", "shape-mirror", "rowGroupInterleavesChunks / rowGroupDropsRows / rowGroupReadsChunksInOrder (in this order) of a tree of row-group views differ from the Lean mirror", map[string]any{
+						"case": canon[:min(len(canon), 3000)], "request": req, "impl": want, "model": ans})
+				}
+			})
+		}
 	}
 	if c.factKey != "" {
 		// obligation: an assumed hypothesis of the planner theorems does not hold of a real row group
@@ -1320,6 +1591,91 @@ func c09GenInputs(r *rand.Rand, cols []c09Col, k int, pattern string, lens []int
 	return inputs
 }
 
+// key columns below groups: one case in four nests some of its key columns in groups (c09Col.Wrap).
+// Under an optional group a nullable key has two kinds of null rows (group absent, def 0; group present
+// and leaf null, def 1 of 2), a required key becomes nullable through its group (def 0 of 1). The null
+// rows of both kinds compare equal, so the inputs stay sorted; inputs whose required key gained nulls
+// are sorted again.
+func c09WrapKeys(r *rand.Rand, c *c09Case) {
+	if r.Intn(4) != 0 {
+		return
+	}
+	resort := false
+	for j := range c.Cols {
+		col := &c.Cols[j]
+		switch r.Intn(4) {
+		case 0:
+			continue
+		case 1:
+			col.Wrap = 2
+			continue
+		}
+		col.Wrap = 1
+		gain := 0 // a required key under an optional group: one row in `gain` has the group absent
+		if !col.Opt && r.Intn(2) == 0 {
+			gain = []int{2, 5, 20}[r.Intn(3)]
+			col.NF = r.Intn(2) == 0
+			resort = true
+		}
+		for i := range c.Inputs {
+			kind := r.Intn(3) // the null keys of this input: 0 = leaf null in a present group, 1 = group absent, 2 = both
+			for s := range c.Inputs[i] {
+				row := &c.Inputs[i][s]
+				switch {
+				case row.Null[j]:
+					row.GNull[j] = kind == 1 || (kind == 2 && r.Intn(2) == 0)
+				case gain > 0 && r.Intn(gain) == 0:
+					row.K[j], row.Null[j], row.GNull[j] = 0, true, true
+				}
+			}
+		}
+	}
+	if resort {
+		for i, rows := range c.Inputs {
+			sort.SliceStable(rows, func(a, b int) bool { return c09Cmp(c.Cols, len(c.Cols), rows[a], rows[b]) < 0 })
+			for s := range rows {
+				rows[s].Inp, rows[s].Seq = int32(i), int32(s)
+			}
+		}
+	}
+}
+
+// schema evolution: one case in six merges into a schema with one more optional column than some of its
+// inputs have (c09Case.Evolve), so that MergeRowGroups converts those inputs. In a nest one inner merge
+// is (when possible) made of such inputs only: its result, a merged row group in the older schema, is
+// then converted by the enclosing merge.
+func c09EvolveSchema(r *rand.Rand, c *c09Case) {
+	if c.Path == "readers" || len(c.Inputs) == 0 || r.Intn(6) != 0 {
+		return
+	}
+	// not next to a repeated column: Convert gives an added column the levels of its closest sibling, the
+	// known C12 finding F19 (added-column-borrows-sibling-levels), which is not a matter of merging
+	c.Lists = false
+	for i := range c.Inputs {
+		if r.Intn(2) == 0 {
+			c.Evolve |= 1 << i
+		}
+	}
+	if c.Nest != "" {
+		if t, err := c09ParseTree(c.Nest); err == nil {
+			var inner []*c09Tree
+			for _, k := range t.kids {
+				if k.leaf < 0 {
+					inner = append(inner, k)
+				}
+			}
+			if len(inner) > 0 {
+				for _, l := range inner[r.Intn(len(inner))].leaves(nil) {
+					c.Evolve |= 1 << l
+				}
+			}
+		}
+	}
+	if c.Evolve == 0 {
+		c.Evolve = 1 << r.Intn(len(c.Inputs))
+	}
+}
+
 var c09Patterns = []string{"disjoint", "touching", "nested", "identical", "staggered", "random"}
 
 func c09GenCase(r *rand.Rand) *c09Case {
@@ -1362,6 +1718,8 @@ func c09GenCase(r *rand.Rand) *c09Case {
 	}
 	c.Inputs = c09GenInputs(r, c.Cols, k, c.Pattern, lens, nullRate)
 	c.Lists = r.Intn(3) == 0
+	c09WrapKeys(r, c)
+	c09EvolveSchema(r, c)
 	c09GenSeeks(r, c)
 	return c
 }
@@ -1453,6 +1811,8 @@ func c09GenRefineCase(r *rand.Rand) *c09Case {
 	}
 	c.Inputs = inputs
 	c.Lists = r.Intn(3) == 0
+	c09WrapKeys(r, c)
+	c09EvolveSchema(r, c)
 	c09GenSeeks(r, c)
 	return c
 }
@@ -1478,7 +1838,7 @@ func c09GenCompoundRefineCase(r *rand.Rand) *c09Case {
 	c.Dedupe = r.Intn(10) == 0
 	c.Path = []string{"rows", "rows", "write", "copyrows"}[r.Intn(4)]
 	min := parquet.VerifMinStreamedRegionRows
-	width := int64(2 + r.Intn(6))  // distinct first-column values per row group
+	width := int64(2 + r.Intn(6))    // distinct first-column values per row group
 	bdom := int64(50 + r.Intn(3000)) // domain of the second column
 	inputs := make([][]c09Row, k)
 	for i := 0; i < k; i++ {
@@ -1530,6 +1890,8 @@ func c09GenCompoundRefineCase(r *rand.Rand) *c09Case {
 	}
 	c.Inputs = inputs
 	c.Lists = r.Intn(3) == 0
+	c09WrapKeys(r, c)
+	c09EvolveSchema(r, c)
 	c09GenSeeks(r, c)
 	return c
 }
@@ -1582,13 +1944,30 @@ func c09GenNestedCase(r *rand.Rand, big bool) *c09Case {
 			c.Inputs = c09GenInputs(r, c.Cols, k, c.Pattern, lens, nullRate)
 		}
 		c.Lists = r.Intn(4) == 0
+		c09WrapKeys(r, c)
 	}
 	c.Pattern = "nested-" + c.Pattern
-	c.Nest = c09GenTree(r, len(c.Inputs)).text()
+	tree := c09GenTree(r, len(c.Inputs))
+	if !c.Dedupe && r.Intn(5) == 0 {
+		// deduplicating views as inputs of a merge that keeps duplicates; also views of a single row group
+		c.DedupeIn = true
+		if c.MCols == 0 {
+			c.MCols = len(c.Cols)
+		}
+		for i, k := range tree.kids {
+			if k.leaf >= 0 && r.Intn(2) == 0 {
+				tree.kids[i] = &c09Tree{leaf: -1, kids: []*c09Tree{k}}
+			}
+		}
+	}
+	c.Nest = tree.text()
+	c.Evolve = 0
+	c09EvolveSchema(r, c)
 	return c
 }
 
-// input 0 spans [0, 100*k]; input i > 0 is an island [100*i, 100*i+w] inside it
+// input 0 spans [0, 100*k]; input i > 0 is an island [100*i, 100*i+w] inside it, one in four an outlier
+// outside of it
 func c09GenIslands(r *rand.Rand, cols []c09Col, k int, lens []int, nullRate int) [][]c09Row {
 	inputs := make([][]c09Row, k)
 	for i := 0; i < k; i++ {
@@ -1596,6 +1975,15 @@ func c09GenIslands(r *rand.Rand, cols []c09Col, k int, lens []int, nullRate int)
 		if i > 0 {
 			lo = int64(100*i) + r.Int63n(20)
 			hi = lo + r.Int63n(60)
+			// an outlier: an island off the shore of the wide input, below or above its range. An inner merge
+			// of the wide input, an island and an outlier is a sequence of segments one of which is a
+			// loser-tree merge (its pages, listed member after member, are not in the order of its rows)
+			switch r.Intn(8) {
+			case 0:
+				lo, hi = lo-int64(100*k+50), hi-int64(100*k+50)
+			case 1:
+				lo, hi = lo+int64(100*k+50), hi+int64(100*k+50)
+			}
 		}
 		rows := make([]c09Row, lens[i])
 		for j := range rows {
@@ -2308,7 +2696,7 @@ func c09DedupeChecks(ctx *core.Ctx, r *rand.Rand, d *drv.Driver, p *c09Pending, 
 
 // ---------------------------------------------------------------- replay of a recorded case
 
-var c09CanonRe = regexp.MustCompile(`^((?:col\(opt=\w+,desc=\w+,nf=\w+\) )+)mcols=(\d+) storage=(\w+) pagebuf=(\d+) batches=\[([\d ]*)\] dedupe=(\w+) path=(\w+) lists=(\w+) seeks=\[([\d ]*)\] (?:nest=(\S+) )?inputs=(.*)$`)
+var c09CanonRe = regexp.MustCompile(`^((?:col\(opt=\w+,desc=\w+,nf=\w+(?:,wrap=\d)?\) )+)mcols=(\d+) storage=(\w+) pagebuf=(\d+) batches=\[([\d ]*)\] dedupe=(\w+) path=(\w+) lists=(\w+) seeks=\[([\d ]*)\] (?:evolve=([01]+) )?(inner-dedupe )?(?:nest=(\S+) )?inputs=(.*)$`)
 
 // c09ParseCanon rebuilds a case from its canonical text (the "case" field of a failure detail)
 func c09ParseCanon(text string) (*c09Case, error) {
@@ -2317,8 +2705,9 @@ func c09ParseCanon(text string) (*c09Case, error) {
 		return nil, errors.New("not a canonical C09 case")
 	}
 	c := &c09Case{Storage: m[3], Path: m[7], Pattern: "replay", Dedupe: m[6] == "true", Lists: m[8] == "true"}
-	for _, cm := range regexp.MustCompile(`col\(opt=(\w+),desc=(\w+),nf=(\w+)\)`).FindAllStringSubmatch(m[1], -1) {
-		c.Cols = append(c.Cols, c09Col{Opt: cm[1] == "true", Desc: cm[2] == "true", NF: cm[3] == "true"})
+	for _, cm := range regexp.MustCompile(`col\(opt=(\w+),desc=(\w+),nf=(\w+)(?:,wrap=(\d))?\)`).FindAllStringSubmatch(m[1], -1) {
+		wrap, _ := strconv.Atoi(cm[4])
+		c.Cols = append(c.Cols, c09Col{Opt: cm[1] == "true", Desc: cm[2] == "true", NF: cm[3] == "true", Wrap: wrap})
 	}
 	c.MCols, _ = strconv.Atoi(m[2])
 	c.PageBuf, _ = strconv.Atoi(m[4])
@@ -2330,13 +2719,19 @@ func c09ParseCanon(text string) (*c09Case, error) {
 		v, _ := strconv.Atoi(f)
 		c.Seeks = append(c.Seeks, v)
 	}
-	c.Nest = m[10]
+	for i, ch := range m[10] {
+		if ch == '1' {
+			c.Evolve |= 1 << i
+		}
+	}
+	c.DedupeIn = m[11] != ""
+	c.Nest = m[12]
 	if c.Nest != "" {
 		if _, err := c09ParseTree(c.Nest); err != nil {
 			return nil, err
 		}
 	}
-	for i, in := range strings.Split(m[11], "/") {
+	for i, in := range strings.Split(m[13], "/") {
 		var rows []c09Row
 		if in != "-" {
 			for j, rt := range strings.Split(in, ",") {
@@ -2344,6 +2739,8 @@ func c09ParseCanon(text string) (*c09Case, error) {
 				for cidx, vt := range strings.Split(rt, ";") {
 					if vt == "n" {
 						row.Null[cidx] = true
+					} else if vt == "N" {
+						row.Null[cidx], row.GNull[cidx] = true, true
 					} else {
 						row.K[cidx], _ = strconv.ParseInt(vt, 10, 64)
 					}
@@ -2362,12 +2759,29 @@ func c09ParseCanon(text string) (*c09Case, error) {
 // ---------------------------------------------------------------- entry point
 
 func RunC09(ctx *core.Ctx) {
-	ctx.SetRule("k in 0..9 sorted inputs (empty, disjoint, touching, nested, identical, staggered, random key ranges; duplicates within and across inputs; asc/desc; nullable keys nulls first/last; one to three key columns, merge by a prefix or by all; optionally a repeated payload column (lists of 0-4 values) that sorts before the key columns by name; forward SeekToRow histories on the merged rows; large compound-key files whose first key column is shared by many rows across row-group and page boundaries) as sorted Buffers and as files (PageBufferSize 1..1MiB, with page index) x read batch sizes 1..300 x MergeRowGroups.Rows / MergeRowReaders / Writer.WriteRowGroup / CopyRows, with and without DropDuplicatedRows; trees of nested merges (the result of a merge as an input of another, depth <= 3, MergeRowGroups and MergeRowReaders); chunked-source MergeRowReaders runs, also with sources answering (0, nil), compared call by call with the Lean mirror; runLength and DedupeRowReader against mirror and spec; exhaustive small scope. Distinct by canonical case text, non-trivial = at least two non-empty inputs (merges) / at least two rows or batches (runLength, dedupe)")
+	ctx.SetRule("k in 0..9 sorted inputs (empty, disjoint, touching, nested, identical, staggered, random key ranges; duplicates within and across inputs; asc/desc; nullable keys nulls first/last; one to three key columns, merge by a prefix or by all; key columns as top-level leaves or as leaves of optional / required groups (a null key with its group absent or with the group present); schema evolution (the merge schema has one more optional column than some inputs, which the merge converts, in nests also the merged result of an inner merge); nests whose inner merges drop duplicated rows while the outermost keeps them (deduplicating views, also of a single row group, as inputs); optionally a repeated payload column (lists of 0-4 values) that sorts before the key columns by name; forward SeekToRow histories on the merged rows; large compound-key files whose first key column is shared by many rows across row-group and page boundaries) as sorted Buffers and as files (PageBufferSize 1..1MiB, with page index) x read batch sizes 1..300 x MergeRowGroups.Rows / MergeRowReaders / Writer.WriteRowGroup / CopyRows, with and without DropDuplicatedRows; trees of nested merges (the result of a merge as an input of another, depth <= 3, MergeRowGroups and MergeRowReaders); chunked-source MergeRowReaders runs, also with sources answering (0, nil), compared call by call with the Lean mirror; runLength and DedupeRowReader against mirror and spec; exhaustive small scope. Distinct by canonical case text, non-trivial = at least two non-empty inputs (merges) / at least two rows or batches (runLength, dedupe)")
 
 	// F12 as a fixed corpus-like case so that it is reported deterministically
 	fixed := []*c09Case{
 		{Cols: []c09Col{{Opt: true}}, MCols: 1, Storage: "buffer", PageBuf: 4096, Batches: []int{10}, Path: "rows", Pattern: "fixed",
 			Inputs: [][]c09Row{{{K: [3]int64{10}}, {Null: [3]bool{true}, Seq: 1}}, {{K: [3]int64{17}, Inp: 1}, {K: [3]int64{17}, Inp: 1, Seq: 1}, {K: [3]int64{18}, Inp: 1, Seq: 2}}}},
+	}
+	// F12 on a key nested in an optional group: the null keys of the first buffer have their group present
+	// (definition level 1 of 2), or absent (0 of 2)
+	for _, gnull := range []bool{false, true} {
+		for _, nf := range []bool{false, true} {
+			other := int64(17)
+			if nf {
+				other = 3
+			}
+			fixed = append(fixed, &c09Case{Cols: []c09Col{{Opt: true, NF: nf, Wrap: 1}}, MCols: 1, Storage: "buffer", PageBuf: 4096, Batches: []int{10}, Path: "rows", Pattern: "fixed-nested-key",
+				Inputs: [][]c09Row{{{K: [3]int64{10}}, {Null: [3]bool{true}, GNull: [3]bool{gnull}, Seq: 1}}, {{K: [3]int64{other}, Inp: 1}, {K: [3]int64{other}, Inp: 1, Seq: 1}, {K: [3]int64{other + 1}, Inp: 1, Seq: 2}}}})
+			if nf {
+				in := fixed[len(fixed)-1].Inputs[0]
+				in[0], in[1] = in[1], in[0]
+				in[0].Seq, in[1].Seq = 0, 1
+			}
+		}
 	}
 	// the minimal input of the cut-lookup defect (mixed page with nulls), deterministic as well
 	{
@@ -2399,6 +2813,38 @@ func RunC09(ctx *core.Ctx) {
 		for _, path := range []string{"rows", "write"} {
 			fixed = append(fixed, &c09Case{Cols: []c09Col{{}}, MCols: 1, Storage: "buffer", PageBuf: 4096, Batches: []int{7}, Path: path, Pattern: "fixed-nested",
 				Nest: "[[0,1],2]", Inputs: [][]c09Row{mk(0, 0, 10, 20, 30, 40, 50, 60, 70, 80, 90, 100), mk(1, 50, 55, 60), mk(2, 70, 75, 80)}})
+			// the same behind a disjoint member: the inner result is a sequence of segments [X, merge(A, B)]
+			for _, storage := range []string{"buffer", "file"} {
+				fixed = append(fixed, &c09Case{Cols: []c09Col{{}}, MCols: 1, Storage: storage, PageBuf: 4096, Batches: []int{7}, Path: path, Pattern: "fixed-nested",
+					Nest: "[[0,1,2],3]", Inputs: [][]c09Row{mk(0, -30, -20, -10), mk(1, 0, 10, 20, 30, 40, 50, 60, 70, 80, 90, 100), mk(2, 50, 55, 60), mk(3, 70, 75, 80)}})
+			}
+		}
+	}
+	// a merged result in an older schema, converted by the enclosing merge: Merge(Merge(evens, odds), D)
+	{
+		var ev, od []c09Row
+		for i := 0; i < 50; i++ {
+			ev = append(ev, c09Row{K: [3]int64{int64(2 * i)}, Inp: 0, Seq: int32(i)})
+			od = append(od, c09Row{K: [3]int64{int64(2*i + 1)}, Inp: 1, Seq: int32(i)})
+		}
+		for _, path := range []string{"rows", "write"} {
+			fixed = append(fixed, &c09Case{Cols: []c09Col{{}}, MCols: 1, Storage: "buffer", PageBuf: 4096, Batches: []int{10}, Path: path, Pattern: "fixed-converted",
+				Nest: "[[0,1],2]", Evolve: 3, Inputs: [][]c09Row{ev, od, {{K: [3]int64{200}, Inp: 2}}}})
+		}
+	}
+	// a deduplicating view of one file (every key twice) merged, keeping duplicates, with a file that
+	// overlaps its middle: the refinement planner would slice the view by the row positions of its chunks
+	{
+		var a, b []c09Row
+		for i := 0; i < 4000; i++ {
+			a = append(a, c09Row{K: [3]int64{int64(i / 2)}, Inp: 0, Seq: int32(i)})
+		}
+		for i := 0; i < 100; i++ {
+			b = append(b, c09Row{K: [3]int64{int64(1900 + i)}, Inp: 1, Seq: int32(i)})
+		}
+		for _, path := range []string{"rows", "write"} {
+			fixed = append(fixed, &c09Case{Cols: []c09Col{{}}, MCols: 1, Storage: "file", PageBuf: 256, Batches: []int{100}, Path: path, Pattern: "fixed-inner-dedupe",
+				Nest: "[[0],1]", DedupeIn: true, Inputs: [][]c09Row{a, b}})
 		}
 	}
 	for _, c := range fixed {
@@ -2437,13 +2883,14 @@ func RunC09(ctx *core.Ctx) {
 
 	workers := 14
 	var wg sync.WaitGroup
-	nL1 := ctx.Scale(4000, 100000)
-	nRefine := ctx.Scale(40, 600)
-	nCompound := ctx.Scale(70, 1000)
-	nNested := ctx.Scale(1500, 30000)
-	nNestedBig := ctx.Scale(16, 300)
-	nL2 := ctx.Scale(6000, 150000)
-	nL2C := ctx.Scale(2500, 50000)
+	// thorough is sized to stay well under 10 minutes on a loaded machine (round 3: 854 s under load)
+	nL1 := ctx.Scale(4000, 36000)
+	nRefine := ctx.Scale(40, 300)
+	nCompound := ctx.Scale(70, 500)
+	nNested := ctx.Scale(1500, 15000)
+	nNestedBig := ctx.Scale(16, 150)
+	nL2 := ctx.Scale(6000, 55000)
+	nL2C := ctx.Scale(2500, 25000)
 	for w := 0; w < workers; w++ {
 		wg.Add(1)
 		go func(w int) {
@@ -2491,17 +2938,17 @@ func RunC09(ctx *core.Ctx) {
 			}
 			p.flush(ctx, d, true)
 			if w == 2 {
-				c09ZeroChecks(ctx, ctx.Rand("c09-zero"), d, p, ctx.Scale(3000, 40000))
+				c09ZeroChecks(ctx, ctx.Rand("c09-zero"), d, p, ctx.Scale(3000, 20000))
 				p.flush(ctx, d, true)
 			}
 			if w == 1 {
-				c09CmpChecks(ctx, ctx.Rand("c09-cmp"), d, p, ctx.Scale(20000, 300000))
+				c09CmpChecks(ctx, ctx.Rand("c09-cmp"), d, p, ctx.Scale(20000, 150000))
 				p.flush(ctx, d, true)
 			}
 			if w == 0 {
-				c09RunLengthChecks(ctx, ctx.Rand("c09-runlength"), d, p, ctx.Scale(20000, 300000))
+				c09RunLengthChecks(ctx, ctx.Rand("c09-runlength"), d, p, ctx.Scale(20000, 150000))
 				p.flush(ctx, d, true)
-				c09DedupeChecks(ctx, ctx.Rand("c09-dedupe"), d, p, ctx.Scale(5000, 100000))
+				c09DedupeChecks(ctx, ctx.Rand("c09-dedupe"), d, p, ctx.Scale(5000, 50000))
 				p.flush(ctx, d, true)
 			}
 		}(w)
@@ -2540,6 +2987,9 @@ func c09Exhaustive(ctx *core.Ctx, workers int) {
 					keys := [][]int64{lists[j.a], lists[j.b], l3}
 					for b := 1; b <= 5; b++ {
 						c09L2Check(ctx, &c09L2Case{keys: keys, batches: []int{b}}, p)
+						if maxLen > 2 && (b == 3 || b == 4) {
+							continue // thorough: the row-group form runs with batch sizes 1, 2 and 5 (dedupe)
+						}
 						oc := &c09Case{Cols: c09L2Cols, MCols: 1, Storage: "buffer", PageBuf: 4096, Batches: []int{b}, Path: "rows", Pattern: "exhaustive", Dedupe: b == 5}
 						for i, ks := range keys {
 							in := make([]c09Row, len(ks))
